@@ -1315,4 +1315,105 @@ def AttrW.line (q : Nat) (also : Nat → Bool) (a : AttrW) : Text :=
 def AttrW.ok (isDense : Bool) (a : AttrW) : Bool :=
   lowerAscii a.kw == kwAttribute && hdrTokOk false a.name && a.gap ≠ [] && a.gap.all isPySpace && a.typ.ok isDense
 
+
+/-! ### whole ARFF files as a writer emits them (spec side) -/
+
+/-- a cell of the table that is written -/
+inductive CellW where
+  | missing
+  | num (tok : Text)
+  | str (s : Text)
+  | cat (s : Text)
+  deriving DecidableEq, Repr
+
+def CellW.text : CellW → Text
+  | .missing => [QM]
+  | .num t => t
+  | .str s => s
+  | .cat s => s
+
+def CellW.isMissing : CellW → Bool
+  | .missing => true
+  | _ => false
+
+/-- what the reader must return for the cell in a column with encoder `e` -/
+def CellW.out (e : Enc) : CellW → Cell
+  | .missing => .missing
+  | .num t => .num t
+  | .str s => .str s
+  | .cat s => (match e with | .nominal lv => .cat s lv | _ => .str s)
+
+/-- the cell fits its column and can be told from the missing marker: numbers are float literals;
+strings and levels hold no `?` (C12-F12, C12-F15); a nominal column has no level named `?` (C12-F13);
+the missing marker is written bare -/
+def cellWOk (e : Enc) (x : Bool × CellW) : Bool :=
+  match e, x.2 with
+  | .numeric, .num t => isFloatLit t && !t.contains QM
+  | .str, .str s => !s.contains QM
+  | .nominal lv, .cat s => lv.contains s && !s.contains QM
+  | .numeric, .missing => !x.1
+  | .str, .missing => !x.1
+  | .nominal lv, .missing => !x.1 && !lv.contains [QM]
+  | _, _ => false
+
+def rowCellsOk : List Enc → List (Bool × CellW) → Bool
+  | [], [] => true
+  | e :: es, x :: xs => cellWOk e x && rowCellsOk es xs
+  | _, _ => false
+
+def rowOut : List Enc → List (Bool × CellW) → List Cell
+  | e :: es, x :: xs => x.2.out e :: rowOut es xs
+  | _, _ => []
+
+def denseTok (x : Bool × CellW) : Bool × Text := (x.1, x.2.text)
+
+/-- a dense data line -/
+def denseRowLine (q : Nat) (also : Nat → Bool) (pad : Nat) (row : List (Bool × CellW)) : Text :=
+  arffWriteRow q also pad (row.map denseTok)
+
+/-- hypotheses on a dense row: it fits the columns, satisfies `arffRowOk` (one quote style) and the
+line does not look like a comment -/
+def denseRowWOk (q : Nat) (also : Nat → Bool) (pad : Nat) (encs : List Enc) (row : List (Bool × CellW)) : Bool :=
+  rowCellsOk encs row && arffRowOk q (row.map denseTok) && (denseRowLine q also pad row).head? != some PCT
+
+/-- C12-F17: the first data line must not be wrapped in braces -/
+def notBraced (line : Text) : Bool := !(line.head? == some LBRACE && line.getLast? == some RBRACE)
+
+
+/-! ## E. delivery: a decompressor that emits nothing for a while; reader objects -/
+
+/-- a lawful streaming "decompressor" whose first outputs are empty: it swallows an `n`-byte
+header (what zlib does with the 10-byte gzip header: `decompress` returns `b''` for those chunks) -/
+def Decomp.skip (n : Nat) : Decomp Nat := ⟨n, fun k bs => (k - bs.length, bs.drop k)⟩
+
+/-- the reader objects of coba/pipes/readers.py: what a reader carries are its constructor arguments -/
+inductive ReaderKind where
+  | csv (d : Dialect) (hasHeader : Bool)
+  | arff
+  | libsvm
+  | manik
+  deriving DecidableEq, Repr
+
+inductive ReadResult where
+  | csv (r : Except Err (Option (List Text) × List (List Text)))
+  | arff (r : Except Err ArffResult)
+  | svm (r : Except Err (List SvmRow))
+
+/-- `list(reader.filter(lines))`, rows materialised -/
+def readerParse : ReaderKind → List Text → ReadResult
+  | .csv d h, ls => .csv (csvReaderFix d h ls)
+  | .arff, ls => .arff (arffRead ls)
+  | .libsvm, ls => .svm (libsvmRead ls)
+  | .manik, ls => .svm (manikRead ls)
+
+/-- one use of a reader object: a full read, or a read abandoned after the first row (nothing
+observed); the object that remains is the object that was there -/
+def readerStep (r : ReaderKind) (input : List Text × Bool) : ReaderKind × Option ReadResult :=
+  (r, if input.2 then none else some (readerParse r input.1))
+
+/-- a history of uses of ONE reader object: what each use returned -/
+def readerRun (r : ReaderKind) : List (List Text × Bool) → List (Option ReadResult)
+  | [] => []
+  | i :: is => (readerStep r i).2 :: readerRun (readerStep r i).1 is
+
 end Coba.C12
